@@ -294,11 +294,22 @@ def extract_ral(path):
             raise ExtractError("governance.ral: %s is not sliced from %s" % (n, data))
         a, w = fixed(l)
         header.append({"name": RAL_NAMES[n], "offset": a, "width": w, "conv": l["conv"]})
-    # body slice: data[H + signatureSize * W, size!(data))
-    bm = re.search(r"let\s+(\w+)\s*=\s*byteVecSlice!\(\s*%s\s*,\s*(\d+)\s*\+\s*signatureSize\s*\*\s*(\d+)\s*,\s*size!\(\s*%s\s*\)\s*\)" % (data, data), body)
+    # body slice: data[<start expression>, size!(data)).  The start expression is evaluated (below, bodyStart) for
+    # combinations of signature count / quorum / set size and compared with the specification's BodyStart(n); the
+    # header length and signature width are read off it where it has the canonical form H + signatureSize * W.
+    bm = re.search(r"let\s+(\w+)\s*=\s*byteVecSlice!\(\s*%s\s*,\s*([^,]+?)\s*,\s*size!\(\s*%s\s*\)\s*\)" % (data, data), body)
     if not bm:
-        raise ExtractError("governance.ral: body slice `byteVecSlice!(data, H + signatureSize * W, size!(data))` not found")
-    bname, header_len, sig_w_body = bm.group(1), int(bm.group(2)), int(bm.group(3))
+        raise ExtractError("governance.ral: body slice `byteVecSlice!(data, <start>, size!(data))` not found")
+    bname, bstart_expr = bm.group(1), bm.group(2).strip()
+
+    def body_start(sig_n, quorum_n, guardian_n, _e=bstart_expr):
+        return evaluate(_e, {"signatureSize": sig_n, "quorumSize": quorum_n, "guardianSize": guardian_n, "guardianSetIndex": 3})
+    try:
+        h0 = body_start(0, 0, 0)
+        h1 = body_start(1, 0, 0)
+    except ExtractError as e:
+        raise ExtractError("governance.ral: cannot evaluate the body start expression %r: %s" % (bstart_expr, e))
+    del h0, h1
     hm = re.search(r"let\s+hash\s*=\s*([^\n]+)", body)
     if not hm:
         raise ExtractError("governance.ral: hash not found")
@@ -365,7 +376,8 @@ def extract_ral(path):
         accept = {"<=": lambda s, q: s <= q, "<": lambda s, q: s < q, ">=": lambda s, q: s >= q, ">": lambda s, q: s > q}[op]
     return {
         "file": path, "program": "governance.ral:parseAndVerifyVAA",
-        "header": header, "headerLen": header_len, "sig": sig, "sigWidth": loop_step, "sigWidthInBodyStart": sig_w_body,
+        "header": header, "headerLen": loop_start, "sig": sig, "sigWidth": loop_step,
+        "bodyStartExpr": bstart_expr, "bodyStart": body_start,
         "loopStart": loop_start, "body": bfields, "payloadOffset": payload, "payloadToEnd": True, "hashOverBodyToEnd": True,
         "hashDouble": hash_double, "hashExpr": hexpr, "version": version, "ascendingIndices": asc, "recIdPlus27": True,
         "quorumExpr": qexpr, "quorumUse": "assert %s %s %s" % (um.group(1), op, um.group(3)),
@@ -417,8 +429,22 @@ def compare_layout(ext, layout):
                     ("version", layout["version"])):
         if ext[k] != want:
             d(k, ext[k], want)
-    if "sigWidthInBodyStart" in ext and ext["sigWidthInBodyStart"] != layout["sigWidth"]:
-        d("sigWidthInBodyStart", ext["sigWidthInBodyStart"], layout["sigWidth"])
+    if "bodyStart" in ext:
+        # the hashed body must start right after the signatures the VAA CARRIES: evaluate the start expression for
+        # set sizes g, the contract's own quorum q(g) and signature counts n >= q (also n > q)
+        bad = []
+        for g in (1, 2, 3, 4, 7, 13, 19, 100, 255):
+            q = ext["quorum"][g]
+            for n in sorted({q, q + 1, g} if q is not None else {g}):
+                if n > max(g, q or 0) or n < 0:      # a VAA carries between quorum and all signatures of its set
+                    continue
+                got = ext["bodyStart"](n, q if q is not None else 0, g)
+                want = layout["headerLen"] + layout["sigWidth"] * n
+                if got != want:
+                    bad.append({"signatures": n, "quorum": q, "guardians": g, "extracted": got, "specification": want})
+        if bad:
+            diffs.append(("contract-layout/%s/bodyStart/expr=%s" % (prog, re.sub(r"\s+", "", ext["bodyStartExpr"])),
+                          {"program": prog, "what": "start of the hashed body", "expression": ext["bodyStartExpr"], "differs_at": bad[:12]}))
     if "loopStart" in ext and ext["loopStart"] != layout["headerLen"]:
         d("loopStart", ext["loopStart"], layout["headerLen"])
     if not ext["hashDouble"]:
